@@ -319,6 +319,9 @@ impl TypeEntry {
             },
             // Note that min and max values are handled already by the
             // conversion routines since we have those close at hand.
+            TypeEntryDetails::Integer(itype) if !integer_fits(itype, default) => {
+                Err(Error::invalid_value())
+            }
             TypeEntryDetails::Integer(itype) => match (default.as_u64(), default.as_i64()) {
                 (None, None) => Err(Error::invalid_value()),
                 (Some(0), _) => Ok(DefaultKind::Intrinsic),
@@ -410,6 +413,32 @@ impl TypeEntry {
             (format!("defaults::{}", fn_name), Some(def))
         }
     }
+}
+
+/// Whether an integer default can be represented by the named Rust integer
+/// type (defaults nested in arrays, structs, or attached to references never
+/// pass through the range check of the integer conversion).
+fn integer_fits(itype: &str, default: &serde_json::Value) -> bool {
+    let (min, max): (i128, i128) = match itype.trim_start_matches(STD_NUM_NONZERO_PREFIX) {
+        "u8" | "U8" => (0, u8::MAX as i128),
+        "u16" | "U16" => (0, u16::MAX as i128),
+        "u32" | "U32" => (0, u32::MAX as i128),
+        "u64" | "U64" => (0, u64::MAX as i128),
+        "i8" | "I8" => (i8::MIN as i128, i8::MAX as i128),
+        "i16" | "I16" => (i16::MIN as i128, i16::MAX as i128),
+        "i32" | "I32" => (i32::MIN as i128, i32::MAX as i128),
+        "i64" | "I64" => (i64::MIN as i128, i64::MAX as i128),
+        // Unknown integer type: leave it to the other checks.
+        _ => return true,
+    };
+    let value = match (default.as_u64(), default.as_i64()) {
+        (Some(v), _) => v as i128,
+        (_, Some(v)) => v as i128,
+        // Not an integer: rejected by the caller.
+        (None, None) => return true,
+    };
+    let nonzero = itype.starts_with(STD_NUM_NONZERO_PREFIX);
+    min <= value && value <= max && !(nonzero && value == 0)
 }
 
 pub(crate) fn validate_default_for_external_enum(
